@@ -596,9 +596,12 @@ def special_PlayerListItemPacket(ctx, P, cx, strlen, lite=False):
             for j in range(concretize(ctx.int('n_props%d' % i, 0, 1))):
                 signed = bool(ctx.bool('signed%d_%d' % (i, j)))
                 props.append(P.PlayerProperty(
-                    name=sstr.ctx_str(ctx, 'pn%d_%d' % (i, j), 1),
-                    value=sstr.ctx_str(ctx, 'pv%d_%d' % (i, j), 1),
-                    signature=sstr.ctx_str(ctx, 'ps%d_%d' % (i, j), 1)
+                    name=sstr.ctx_str(ctx, 'pn%d_%d' % (i, j), 1,
+                                      ascii_only=lite),
+                    value=sstr.ctx_str(ctx, 'pv%d_%d' % (i, j), 1,
+                                       ascii_only=lite),
+                    signature=sstr.ctx_str(ctx, 'ps%d_%d' % (i, j), 1,
+                                           ascii_only=lite)
                     if signed else None))
             f['properties'] = props
         if kind in (0, 1):
@@ -606,7 +609,8 @@ def special_PlayerListItemPacket(ctx, P, cx, strlen, lite=False):
         if kind in (0, 2):
             f['ping'] = ctx.int('ping%d' % i, 0, 127 if lite else (1 << 32) - 1)
         if kind in (0, 3):
-            f['display_name'] = sstr.ctx_str(ctx, 'dn%d' % i, strlen) \
+            f['display_name'] = sstr.ctx_str(ctx, 'dn%d' % i, strlen,
+                                             ascii_only=lite) \
                 if bool(ctx.bool('has_dn%d' % i)) else None
         acts.append(A(**f))
         specs.append(f)
